@@ -209,11 +209,12 @@ CLAIMED["C17"] = dict(
          "_no_groups — non-HDF5 bytes, and any HDF5 file that is neither EMD 1.0 nor holds a group tagged emd_group_type=1, make "
          "read raise; C17_detector — the EMD 1.0 detector is exactly header type 'file' + version 1.0 + >= 1 root; C17_import_axis — "
          "a full-length 1-based dim dataset becomes the axis' dim vector verbatim (every arithmetic); C17_import_calibrated — every "
-         "imported Array satisfies C14; C17_single — one data group gives that Array under the group's name.",
-    note="PARTIAL: for several data groups (root holding all of them by name) the theorem is not stated beyond the model's "
-         "definition; it is compared by the correspondence (arrays by name with data token, bit-exact dims, names, units) on files "
-         "with 1-4 data groups at depth 0-3. Forced hypothesis: distinct data-group basenames (C17_counterexample_same_name, known "
-         "finding C17-K1). The shape h5py reports for `data` is contract H2.",
+         "imported Array satisfies C14; C17_import_faithful — the import of a data group with full-length dim datasets succeeds and "
+         "yields its data token and per axis exactly the stored vector, name and units; C17_single — one data group gives that "
+         "Array under the group's name; C17_many — several groups with distinct names give a root holding all of them by name.",
+    note="Forced hypothesis: distinct data-group basenames (C17_counterexample_same_name, known finding C17-K1). The shape h5py "
+         "reports for `data` is contract H2. Also compared by the correspondence (arrays by name with data token, bit-exact dims, "
+         "names, units) on files with 1-4 data groups at depth 0-3, foreign and junk files.",
     technique="Lean 4 proofs over a model of the legacy reader + differential correspondence on generated legacy / foreign / junk files",
     design="7 C17")
 CLAIMED["C19"] = dict(
